@@ -225,7 +225,7 @@ def validate_recorded(ctx, consts, n_traces, rep, max_events=60):
 def run(ctx):
     rep = Reporter(ctx)
     if ctx.quick:
-        n = replay_graph(ctx, V_SMALL, rep, max_walks=600)
+        n = replay_graph(ctx, V_SMALL, rep, max_walks=500)
         witnesses(ctx, V_MID)
         validate_recorded(ctx, V_MID, 80, rep)
     else:
